@@ -17,7 +17,7 @@ def can_match_nl(auto):
 
 def table_facts(ctx, pairs):
     """The generated rule_can_match_eol table must flag every rule whose
-    pattern (head or trailing context) can contain a newline; with the '|'
+    pattern (for r/s: the head r, the text that is consumed) can contain a newline; with the '|'
     action a rule shares the action -- and the flag -- of the rules falling into it."""
     from .. import engines as E, harness as H
     for spec, cfg in pairs:
@@ -34,7 +34,9 @@ def table_facts(ctx, pairs):
         bad = []
         need = {}
         for r in spec.rules:
-            if can_match_nl(r.full):
+            # only newlines of the text the action sees (the head r of r/s) are consumed and counted;
+            # flex may flag more (it flags 'a/\\n' but need not flag 'b$')
+            if can_match_nl(r.headauto if r.trail is not None else r.full):
                 need[r.num] = True
         # '|' chains: the action of rule k also runs for every rule falling into it
         for r in spec.rules:
